@@ -523,7 +523,7 @@ impl Prop for C03 {
         ]
     }
     fn run_shard(&self, ctx: &mut Ctx<'_>) {
-        let n = ctx.budget(200_000, 5_000_000);
+        let n = ctx.budget(200_000, 20_000_000);
         for i in 0..n {
             if i % 32 == 0 && ctx.should_stop() {
                 break;
